@@ -15,6 +15,7 @@ package main
 
 import (
 	"bufio"
+	"bytes"
 	"encoding/binary"
 	"encoding/hex"
 	"fmt"
@@ -36,11 +37,13 @@ import (
 )
 
 const (
-	c09WatchdogSec   = 10               // property: wall time ≤ 10 s
-	c09BaseBudget    = 512 << 20        // property: peak heap ≤ 512 MiB + 64·S
-	c09PerSample     = 64               //
-	c09SMax          = 1 << 22          // property applies when the declared S ≤ 2^22 (or nothing is declared)
-	c09ChildAS       = uint64(6) << 30  // RLIMIT_AS of a child: far above the largest budget (768 MiB) + runtime overhead
+	c09WatchdogSec   = 10                // property: 10 s, applied to the CPU time (user+system) of the decoding process
+	c09HangWall      = 60 * time.Second  // wall-clock only bounds hangs: 60 s with less than 1 s of CPU time …
+	c09AbsWall       = 120 * time.Second // … or 120 s whatever the CPU time
+	c09BaseBudget    = 512 << 20         // property: peak heap ≤ 512 MiB + 64·S
+	c09PerSample     = 64                //
+	c09SMax          = 1 << 22           // property applies when the declared S ≤ 2^22 (or nothing is declared)
+	c09ChildAS       = uint64(6) << 30   // RLIMIT_AS of a child: far above the largest budget (768 MiB) + runtime overhead
 	c09LargeWatchdog = 1500 * time.Millisecond
 )
 
@@ -72,7 +75,7 @@ func init() {
 		j := []c08Job{{Target: c08TargetIdx(os.Args[2]), FI: fi, Data: data, Measure: true}}
 		j[0].S = c08ScanFor(c08Targets[j[0].Target].Family, data, fi).S
 		r := c09RunJobs(j, 1)[0]
-		fmt.Printf("declaredS=%d outcome=%s ms=%.1f alloc=%d peak=%d site=%s kind=%s line=%s text=%s\n", j[0].S, r.Outcome, float64(r.Ns)/1e6, r.Alloc, r.Peak, r.Site, r.Kind, r.Line, r.Text)
+		fmt.Printf("declaredS=%d outcome=%s ms=%.1f cpu_ms=%.1f alloc=%d peak=%d site=%s kind=%s line=%s text=%s\n", j[0].S, r.Outcome, float64(r.Ns)/1e6, float64(r.Cpu)/1e6, r.Alloc, r.Peak, r.Site, r.Kind, r.Line, r.Text)
 		os.Exit(0)
 	}
 	if len(os.Args) >= 7 && os.Args[1] == "c08-mct-wide" { // replay aid: vharness c08-mct-wide comps w h stages elemType → hex of the stream
@@ -212,8 +215,39 @@ func c09AllocBytes() uint64 {
 	return 0
 }
 
+// c09SelfCPU: user+system CPU time of this process so far, in ns
+func c09SelfCPU() int64 {
+	var ru syscall.Rusage
+	if err := syscall.Getrusage(syscall.RUSAGE_SELF, &ru); err != nil {
+		return 0
+	}
+	return (int64(ru.Utime.Sec)+int64(ru.Stime.Sec))*1e9 + (int64(ru.Utime.Usec)+int64(ru.Stime.Usec))*1e3
+}
+
+// c09ProcCPU: user+system CPU time of another process from /proc/<pid>/stat (clock ticks of 10 ms), in ns; -1 if unreadable
+func c09ProcCPU(pid int) int64 {
+	b, err := os.ReadFile("/proc/" + strconv.Itoa(pid) + "/stat")
+	if err != nil {
+		return -1
+	}
+	k := bytes.LastIndexByte(b, ')')
+	if k < 0 {
+		return -1
+	}
+	f := strings.Fields(string(b[k+1:]))
+	if len(f) < 13 {
+		return -1
+	}
+	ut, e1 := strconv.ParseInt(f[11], 10, 64)
+	st, e2 := strconv.ParseInt(f[12], 10, 64)
+	if e1 != nil || e2 != nil {
+		return -1
+	}
+	return (ut + st) * 1e7
+}
+
 // c09ChildMain: job frame = u32 target | u32 flags | 5×u16 frame info | u32 len | data.
-// answer line  = outcome \t ns \t allocBytes \t peakBytes \t site \t kind \t line \t text/desc
+// answer line  = outcome \t ns \t allocBytes \t peakBytes \t site \t kind \t line \t cpuNs \t text/desc
 func c09ChildMain() {
 	lim := c09ChildAS
 	if v := os.Getenv("C09_AS_BYTES"); v != "" {
@@ -254,11 +288,12 @@ func c09ChildMain() {
 			done.Add(1)
 			go func() {
 				defer done.Done()
-				var ms runtime.MemStats
+				// heap objects (live + not yet swept) = MemStats.HeapAlloc, read without stopping the world
+				hs := []metrics.Sample{{Name: "/memory/classes/heap/objects:bytes"}}
 				for {
-					runtime.ReadMemStats(&ms)
-					if ms.HeapAlloc > peak {
-						peak = ms.HeapAlloc
+					metrics.Read(hs)
+					if hs[0].Value.Kind() == metrics.KindUint64 && hs[0].Value.Uint64() > peak {
+						peak = hs[0].Value.Uint64()
 					}
 					select {
 					case <-stop:
@@ -269,9 +304,11 @@ func c09ChildMain() {
 			}()
 		}
 		a0 := c09AllocBytes()
+		c0 := c09SelfCPU()
 		t0 := time.Now()
 		outcome, desc, st := c09RunOne(target, fi, data)
 		ns := time.Since(t0).Nanoseconds()
+		cpu := c09SelfCPU() - c0
 		a1 := c09AllocBytes()
 		if measure {
 			close(stop)
@@ -280,7 +317,7 @@ func c09ChildMain() {
 		clean := func(s string) string {
 			return strings.NewReplacer("\t", " ", "\n", " ", "\r", " ").Replace(s)
 		}
-		fmt.Fprintf(out, "%s\t%d\t%d\t%d\t%s\t%s\t%s\t%s\n", outcome, ns, a1-a0, peak, clean(st.Site), st.Kind, clean(st.Line), clean(desc))
+		fmt.Fprintf(out, "%s\t%d\t%d\t%d\t%s\t%s\t%s\t%d\t%s\n", outcome, ns, a1-a0, peak, clean(st.Site), st.Kind, clean(st.Line), cpu, clean(desc))
 		out.Flush()
 	}
 }
@@ -307,24 +344,27 @@ func c09RunOne(target int, fi [5]uint16, data []byte) (outcome, desc string, st 
 // ---------------------------------------------------------------------------------- parent side
 
 type c08Job struct {
-	Target int
-	FI     [5]uint16 // W, H, BitsAllocated, SamplesPerPixel, PlanarConfiguration (RLE / codec targets)
-	Data   []byte
-	Origin string // mutation operator
-	Base   string // corpus stream it derives from
-	S      int64  // declared samples of the independently parsed first frame header; -1 = none
+	Target  int
+	FI      [5]uint16 // W, H, BitsAllocated, SamplesPerPixel, PlanarConfiguration (RLE / codec targets)
+	Data    []byte
+	Origin  string // mutation operator
+	Base    string // corpus stream it derives from
+	S       int64  // declared samples of the independently parsed first frame header; -1 = none
 	Measure bool
 }
 
 type c08Res struct {
-	Outcome string // ok | err | panic | timeout | crash-oom | crash
-	Ns      int64
-	Alloc   uint64
-	Peak    uint64
-	Site    string
-	Kind    string
-	Line    string
-	Text    string // panic text / ok description / crash tail
+	Outcome string // ok | err | panic | timeout (CPU budget used up) | hang (wall-clock bound) | crash-oom | crash
+	Ns      int64  // wall
+	Cpu     int64  // CPU time (user+system) of the child during this decode
+	// Unconfirmed: a time/memory excess of the parallel pass that was not re-run sequentially (over the confirmation quota)
+	Unconfirmed bool
+	Alloc       uint64
+	Peak        uint64
+	Site        string
+	Kind        string
+	Line        string
+	Text        string // panic text / ok description / crash tail
 }
 
 type c09Child struct {
@@ -466,8 +506,11 @@ func c09RunJobsWD(jobs []c08Job, workers int, watchdog time.Duration) []c08Res {
 					if j.S > c09SMax && wd > c09LargeWatchdog {
 						wd = c09LargeWatchdog
 					}
-					// 1. heartbeat (job read by the child) within 60 s, 2. answer within the watchdog
+					// 1. heartbeat (job read by the child) within 60 s; 2. answer before the child has used `wd` of CPU time
+					// (polled from /proc every 100 ms); wall-clock only bounds hangs
 					stage := 0
+					var w0 time.Time
+					var cpu0 int64
 				wait:
 					for {
 						if !timer.Stop() {
@@ -479,12 +522,14 @@ func c09RunJobsWD(jobs []c08Job, workers int, watchdog time.Duration) []c08Res {
 						if stage == 0 {
 							timer.Reset(60 * time.Second)
 						} else {
-							timer.Reset(wd)
+							timer.Reset(100 * time.Millisecond)
 						}
 						select {
 						case l, ok := <-ch.lines:
 							if ok && stage == 0 && l == "S" {
 								stage = 1
+								w0 = time.Now()
+								cpu0 = c09ProcCPU(ch.cmd.Process.Pid)
 								continue wait
 							}
 							if !ok {
@@ -510,10 +555,32 @@ func c09RunJobsWD(jobs []c08Job, workers int, watchdog time.Duration) []c08Res {
 								res[i] = c09ParseLine(l)
 							}
 						case <-timer.C:
-							ch.kill()
-							ch = nil
-							atomic.AddInt64(&c09Stats.timeouts, 1)
-							res[i] = c08Res{Outcome: "timeout", Ns: wd.Nanoseconds()}
+							if stage == 0 {
+								ch.kill()
+								ch = nil
+								atomic.AddInt64(&c09Stats.timeouts, 1)
+								res[i] = c08Res{Outcome: "hang", Ns: (60 * time.Second).Nanoseconds(), Text: "no heartbeat: the job was not read within 60 s"}
+								break wait
+							}
+							wall := time.Since(w0)
+							cpu := int64(-1)
+							if c1 := c09ProcCPU(ch.cmd.Process.Pid); c1 >= 0 && cpu0 >= 0 {
+								cpu = c1 - cpu0
+							}
+							switch {
+							case cpu >= wd.Nanoseconds() || (cpu < 0 && wall >= wd): // (/proc unreadable: fall back to wall-clock)
+								ch.kill()
+								ch = nil
+								atomic.AddInt64(&c09Stats.timeouts, 1)
+								res[i] = c08Res{Outcome: "timeout", Ns: wall.Nanoseconds(), Cpu: cpu}
+							case (wall >= c09HangWall && cpu < 1e9) || wall >= c09AbsWall || (j.S > c09SMax && wall >= 20*wd):
+								ch.kill()
+								ch = nil
+								atomic.AddInt64(&c09Stats.timeouts, 1)
+								res[i] = c08Res{Outcome: "hang", Ns: wall.Nanoseconds(), Cpu: cpu}
+							default:
+								continue wait
+							}
 						}
 						break wait
 					}
@@ -527,14 +594,15 @@ func c09RunJobsWD(jobs []c08Job, workers int, watchdog time.Duration) []c08Res {
 }
 
 func c09ParseLine(l string) c08Res {
-	f := strings.SplitN(l, "\t", 8)
-	if len(f) < 8 {
+	f := strings.SplitN(l, "\t", 9)
+	if len(f) < 9 {
 		return c08Res{Outcome: "crash", Text: "bad child line: " + l}
 	}
 	ns, _ := strconv.ParseInt(f[1], 10, 64)
 	al, _ := strconv.ParseUint(f[2], 10, 64)
 	pk, _ := strconv.ParseUint(f[3], 10, 64)
-	return c08Res{Outcome: f[0], Ns: ns, Alloc: al, Peak: pk, Site: f[4], Kind: f[5], Line: f[6], Text: f[7]}
+	cpu, _ := strconv.ParseInt(f[7], 10, 64)
+	return c08Res{Outcome: f[0], Ns: ns, Cpu: cpu, Alloc: al, Peak: pk, Site: f[4], Kind: f[5], Line: f[6], Text: f[8]}
 }
 
 func c09Workers() int {
@@ -552,7 +620,7 @@ func c09Workers() int {
 
 // c09Violation decides the property on one result. applicable = S ≤ 2^22 or nothing declared.
 func c09Violation(j *c08Job, r *c08Res) (class, what string) {
-	if j.S > c09SMax {
+	if j.S > c09SMax || r.Unconfirmed {
 		return "", ""
 	}
 	tname := c08Targets[j.Target].Name
@@ -562,9 +630,18 @@ func c09Violation(j *c08Job, r *c08Res) (class, what string) {
 	case "j2k":
 		if l := c09J2KLayers(j.Data); l >= 256 {
 			timeClass = "c09-time-j2k-declared-layers" // t2.PacketDecoder.decodeLRCP/RLCP/RPCL/PCRL/CPRL iterate all declared layers
-		} else if c09J2KMctWork(j.Data) >= 1e9 {
+		} else if c09J2KLevelsComps(j.Data) >= 1<<17 || c09J2KDeclaredCsiz(j.Data) >= 4096 {
+			// per (tile, component, resolution): maps and tables of t2.PacketDecoder (storePrecinctBands, position maps) and
+			// t2.TileDecoder, about 15–20 µs each, and geometry (bandInfosForResolution, resolutionDimsWithOrigin,
+			// splitLengths) that walks all levels again: tiles x components x levels^2 steps — decided by the header
+			// fields (tile-parts x Csiz x (levels+1) ≥ 2^17, or Csiz ≥ 4096: with thousands of components any second factor —
+			// levels, tile-parts, the NOMINAL code-block area every block's T1 buffers are sized by — reaches the budget),
+			// not by the outcome
+			timeClass = "c09-time-j2k-per-component-overhead"
+		} else if c09J2KMctWork(j.Data) >= 2e8 {
 			// jpeg2000.Decoder.applyDecoderMCTBindings: stages x pixels x (collection width)^2 multiply-adds, with up to
-			// 255 stages (MCO) of up to 181 x 181 matrices — below 10^9 the transform alone cannot use up the budget
+			// 255 stages (MCO) of up to 181 x 181 matrices (about 3·10^8 multiply-adds per CPU second) — the class is decided by
+			// this work estimate, not by the outcome: below 2·10^8 the transform cannot be what uses up the budget
 			timeClass = "c09-time-j2k-mct-stages"
 		} else if c09J2KOneAxisOffset(j.Data) {
 			// tile / tile-component buffers sized by a grid coordinate instead of the tile-component extent
@@ -583,19 +660,21 @@ func c09Violation(j *c08Job, r *c08Res) (class, what string) {
 		}
 	}
 	memClass, oomClass := "c09-mem-"+tname, "c09-oom-"+tname
-	if timeClass == "c09-j2k-grid-offset" || timeClass == "c09-j2k-one-axis-offset" {
+	if timeClass == "c09-j2k-grid-offset" || timeClass == "c09-j2k-one-axis-offset" || timeClass == "c09-time-j2k-per-component-overhead" {
 		memClass, oomClass = timeClass, timeClass
 	}
 	switch r.Outcome {
 	case "timeout":
-		return timeClass, fmt.Sprintf("decode did not return within %d s", c09WatchdogSec)
+		return timeClass, fmt.Sprintf("decode did not return within %d s of CPU time (killed after %.1f s of CPU, %.1f s wall)", c09WatchdogSec, float64(r.Cpu)/1e9, float64(r.Ns)/1e9)
+	case "hang":
+		return "c09-hang-" + tname, fmt.Sprintf("decode made no progress: %.1f s wall with %.1f s of CPU time", float64(r.Ns)/1e9, float64(r.Cpu)/1e9)
 	case "crash-oom":
 		return oomClass, "fatal out-of-memory abort of the decoding process (RLIMIT_AS kill switch): " + r.Text
 	case "crash":
 		return "c09-crash-" + tname, "decoding process died: " + r.Text
 	}
-	if r.Ns > int64(c09WatchdogSec)*1e9 {
-		return timeClass, fmt.Sprintf("decode took %.1f s", float64(r.Ns)/1e9)
+	if r.Cpu > int64(c09WatchdogSec)*1e9 {
+		return timeClass, fmt.Sprintf("decode used %.1f s of CPU time (%.1f s wall)", float64(r.Cpu)/1e9, float64(r.Ns)/1e9)
 	}
 	if r.Peak > c09Budget(j.S) {
 		return memClass, fmt.Sprintf("sampled peak heap %d bytes > budget %d (S=%d)", r.Peak, c09Budget(j.S), j.S)
@@ -611,6 +690,47 @@ func c09J2KLayers(b []byte) int {
 		}
 	}
 	return -1
+}
+
+// c09J2KDeclaredCsiz: Csiz of the SIZ segment (independent scan), 0 if none
+func c09J2KDeclaredCsiz(b []byte) int64 {
+	if len(b) < 42 || b[0] != 0xFF || b[1] != 0x4F || b[2] != 0xFF || b[3] != 0x51 {
+		return 0
+	}
+	return int64(c08Be16(b, 40))
+}
+
+// c09J2KLevelsComps: tile-parts x Csiz x (largest decomposition level count declared by a COD / COC segment of the main header + 1),
+// from an independent scan (tiles = number of SOT segments, i.e. tile-parts, in the stream)
+func c09J2KLevelsComps(b []byte) int64 {
+	if len(b) < 42 || b[0] != 0xFF || b[1] != 0x4F || b[2] != 0xFF || b[3] != 0x51 {
+		return 0
+	}
+	csiz := int64(c08Be16(b, 40))
+	wide := csiz > 256
+	tiles, levels := int64(0), int64(0)
+	for _, sg := range c08ScanJ2K(b).Segs {
+		p := -1
+		switch sg.Marker {
+		case 0x52:
+			p = sg.Off + 9
+		case 0x53:
+			p = sg.Off + 6
+			if wide {
+				p++
+			}
+		case 0x90:
+			tiles++
+			continue
+		}
+		if tiles == 0 && p >= 0 && p < len(b) && int64(b[p]) > levels {
+			levels = int64(b[p])
+		}
+	}
+	if tiles == 0 {
+		tiles = 1
+	}
+	return tiles * csiz * (levels + 1)
 }
 
 // c09J2KMctWork: stages x pixels x (widest MCC collection)^2, from an independent scan of the main header: stages = length
@@ -680,8 +800,8 @@ func c09CountSOF(b []byte) int {
 }
 
 func c09Main(c *hx.Ctx) {
-	c.Rule = "one evaluation = one decode of one (entry point, byte string[, FrameInfo]) in a child process with a 10 s watchdog, " +
-		"RLIMIT_AS kill switch and allocation accounting; the property is evaluated when the independently parsed first frame header " +
+	c.Rule = "one evaluation = one decode of one (entry point, byte string[, FrameInfo]) in a child process under a budget of 10 s of CPU time (user+system of that process; wall-clock only bounds hangs: 60 s without CPU use, 120 s absolute), " +
+		"RLIMIT_AS kill switch and allocation accounting; every excess is re-run alone in a fresh process at the end and reported only if it fails again; the property is evaluated when the independently parsed first frame header " +
 		"(SOF/SIZ; FrameInfo for RLE) declares S ≤ 2^22 or nothing; non-trivial = the input is not a bare corpus stream " +
 		"(it is a mutation) and the decoder got past the start-of-image check (outcome ok, or an error/panic after at least 4 bytes)"
 	jobs := c08BuildJobs(c)
@@ -705,6 +825,7 @@ func c09Main(c *hx.Ctx) {
 		}
 		c.CountN("stage2-peak-sampled", len(again))
 	}
+	c09Confirm(c, jobs, res, 24)
 	seen := map[string]int{}
 	var maxNs int64
 	var maxAlloc uint64
@@ -748,17 +869,17 @@ func c09Main(c *hx.Ctx) {
 		default:
 			c.Count("alloc:<1MiB")
 		}
-		if dbg := os.Getenv("C09_TRACE_BASE"); dbg != "" && j.Base == dbg { // analysis aid
+		if dbg := os.Getenv("C09_TRACE_BASE"); dbg != "" && strings.Contains(j.Base, dbg) { // analysis aid
 			cl, _ := c09Violation(j, r)
-			fmt.Fprintf(os.Stderr, "trace %s %s/%s len=%d S=%d outcome=%s ns=%d alloc=%d peak=%d class=%s\n", c08Targets[j.Target].Name, j.Origin, j.Base, len(j.Data), j.S, r.Outcome, r.Ns, r.Alloc, r.Peak, cl)
+			fmt.Fprintf(os.Stderr, "trace %s %s/%s len=%d S=%d outcome=%s ns=%d cpu=%d alloc=%d peak=%d class=%s\n", c08Targets[j.Target].Name, j.Origin, j.Base, len(j.Data), j.S, r.Outcome, r.Ns, r.Cpu, r.Alloc, r.Peak, cl)
 		}
 		if class, what := c09Violation(j, r); class != "" {
 			seen[class]++
 			if seen[class] <= 2 {
 				c.Fail(hx.Failure{Class: class, What: what,
 					Input:    c08InputMap(j),
-					Expected: fmt.Sprintf("return within %d s and peak heap ≤ %d bytes (S=%d)", c09WatchdogSec, c09Budget(j.S), j.S),
-					Actual:   fmt.Sprintf("outcome=%s ns=%d alloc=%d peak=%d %s", r.Outcome, r.Ns, r.Alloc, r.Peak, r.Text)})
+					Expected: fmt.Sprintf("return within %d s of CPU time and peak heap ≤ %d bytes (S=%d)", c09WatchdogSec, c09Budget(j.S), j.S),
+					Actual:   fmt.Sprintf("outcome=%s wall_ns=%d cpu_ns=%d alloc=%d peak=%d %s (confirmed by a sequential re-run in a fresh process)", r.Outcome, r.Ns, r.Cpu, r.Alloc, r.Peak, r.Text)})
 			} else {
 				c.Count("fail-more:" + class)
 			}
@@ -769,71 +890,103 @@ func c09Main(c *hx.Ctx) {
 	c08Correspondence(c)
 }
 
-// c09Pass runs the jobs; in the quick tier the first pass uses a 2.5 s watchdog and the inputs it killed are
-// re-run under the full 10 s watchdog — at most `confirm` per entry point (the others keep outcome "slow>2.5s",
-// which is counted but is not a verdict).
+// c09Pass runs the jobs in parallel: the thorough tier under the full budget (10 s of CPU time per decode), the quick
+// tier under a 4 s one.  What it reports as over the time or memory budget is only a CANDIDATE: c09Confirm re-runs the
+// candidates one by one at the end, and only what fails again is a failure.  With confirm == 0 (C08: time is not its
+// business) the inputs killed by the quick tier's short budget are just marked slow.
 func c09Pass(c *hx.Ctx, jobs []c08Job, confirm int) []c08Res {
 	if c.Thorough() {
 		return c09RunJobs(jobs, c09Workers())
 	}
-	res := c09RunJobsWD(jobs, c09Workers(), 2500*time.Millisecond)
-	var again []int
-	// confirmation quota per (entry point, operator family): an operator whose inputs are all fast on the unchanged
-	// tree (e.g. j2k-grid-offset-x) must not lose its confirmations to a family that is known to be slow
+	res := c09RunJobsWD(jobs, c09Workers(), 4*time.Second)
+	if confirm == 0 {
+		for i := range res {
+			if res[i].Outcome == "timeout" && jobs[i].S <= c09SMax {
+				res[i].Outcome = "slow>4s"
+			}
+		}
+	}
+	return res
+}
+
+// c09Confirm: every time / memory excess seen by the parallel passes is re-run SEQUENTIALLY, alone, in a fresh child
+// process, with measurement on, when no other child of the harness is running — at most `quota` of them (per class: until two have failed again, at most 8 attempts, 3 in the quick tier), spread
+// round-robin over (class, entry point, operator), within one key the last input first, then the first, then inwards
+// (the inputs of an operator are usually ordered by a growing parameter).  A candidate that passes its re-run is counted
+// as flaky-unconfirmed, one beyond the quota as unconfirmed-over-quota; neither is a failure.
+func c09Confirm(c *hx.Ctx, jobs []c08Job, res []c08Res, quota int) {
 	per := map[string][]int{}
 	var keys []string
 	for i := range jobs {
-		if res[i].Outcome == "timeout" && jobs[i].S <= c09SMax {
-			key := fmt.Sprintf("%d|%s", jobs[i].Target, jobs[i].Origin)
-			if per[key] == nil {
-				keys = append(keys, key)
-			}
-			per[key] = append(per[key], i)
+		class, _ := c09Violation(&jobs[i], &res[i])
+		if class == "" {
+			continue
 		}
+		key := fmt.Sprintf("%s|%d|%s", class, jobs[i].Target, jobs[i].Origin)
+		if per[key] == nil {
+			keys = append(keys, key)
+		}
+		per[key] = append(per[key], i)
 	}
-	// the killed inputs of one operator are usually ordered by growing parameter: per (entry point, operator) confirm the
-	// last one, then the first, then inwards — round-robin over the keys until 8*confirm re-runs are planned (they run in
-	// parallel: one 10 s wave).  A fixed per-key quota alone loses a genuinely slow input among spurious kills on a loaded machine.
-	budget, maxLen := 8*confirm, 0
+	// the order within one key: last, first, then inwards
+	ordered := map[string][]int{}
 	for _, key := range keys {
-		if len(per[key]) > maxLen {
-			maxLen = len(per[key])
+		idx := per[key]
+		for d := 0; d < len(idx); d++ {
+			i := idx[d/2]
+			if d%2 == 0 {
+				i = idx[len(idx)-1-d/2]
+			}
+			dup := false
+			for _, x := range ordered[key] {
+				dup = dup || x == i
+			}
+			if !dup {
+				ordered[key] = append(ordered[key], i)
+			}
 		}
 	}
-	pick := map[int]bool{}
-	for d := 0; d < maxLen && len(pick) < budget; d++ {
+	// round-robin over the keys; a class needs no further re-runs once two of its candidates have failed again, and gets
+	// no more than 8 (quick tier: 3) attempts — so a class whose first picks were borderline still gets its clear cases tried
+	maxAttempts, enough := 8, 2
+	if !c.Thorough() {
+		maxAttempts = 3
+	}
+	attempts, failed := map[string]int{}, map[string]int{}
+	done := map[int]bool{}
+	total := 0
+	for progress := true; progress && total < quota; {
+		progress = false
 		for _, key := range keys {
-			idx := per[key]
-			if d >= len(idx) || len(pick) >= budget {
+			class := key[:strings.Index(key, "|")]
+			if total >= quota || failed[class] >= enough || attempts[class] >= maxAttempts || len(ordered[key]) == 0 {
 				continue
 			}
-			if d%2 == 0 {
-				pick[idx[len(idx)-1-d/2]] = true
+			i := ordered[key][0]
+			ordered[key] = ordered[key][1:]
+			progress = true
+			attempts[class]++
+			total++
+			done[i] = true
+			j := jobs[i]
+			j.Measure = true
+			r := c09RunJobs([]c08Job{j}, 1)[0] // its own worker: spawns a child for this one job and kills it afterwards
+			c.Count("confirmation-re-run")
+			if again, _ := c09Violation(&j, &r); again == "" {
+				c.Count("flaky-unconfirmed")
+				c.Count("flaky-unconfirmed:" + class)
 			} else {
-				pick[idx[d/2]] = true
+				failed[class]++
 			}
+			res[i] = r
 		}
 	}
 	for _, key := range keys {
 		for _, i := range per[key] {
-			if pick[i] {
-				again = append(again, i)
-			} else {
-				res[i].Outcome = "slow>2.5s"
+			if !done[i] {
+				res[i].Unconfirmed = true
+				c.Count("unconfirmed-over-quota")
 			}
 		}
 	}
-	if len(again) > 0 {
-		js := make([]c08Job, len(again))
-		for k, i := range again {
-			js[k] = jobs[i]
-			js[k].Measure = true // sample the peak heap as well: a decode may finish within 10 s and still blow the budget
-		}
-		rs := c09RunJobs(js, c09Workers())
-		for k, i := range again {
-			res[i] = rs[k]
-		}
-		c.CountN("re-run-under-full-watchdog", len(again))
-	}
-	return res
 }
